@@ -84,6 +84,7 @@ type impl struct {
 	shorts   []string // names of requests whose context ended during an outage: they must never reach the broker
 	tokenFlagged bool
 	pendingViolation string
+	earlyAtClose, earlyTokAtClose int
 	downAliases map[*broker.Inc]map[uint32]string
 	aliasSeq    int
 	aliasClash  string
@@ -449,6 +450,22 @@ func (i *impl) summary() string {
 		if tokens > i.ackAttempts {
 			tokens = i.ackAttempts
 		}
+	} else {
+		// the token is fetched first, then the dial starts: an early attempt may have shown only its token request at the Close
+		early := i.earlyTokAtClose
+		if i.earlyAtClose > early {
+			early = i.earlyAtClose
+		}
+		forgive := func(raw int) int {
+			switch {
+			case raw-early >= i.ackAttempts:
+				return raw - early
+			case raw > i.ackAttempts:
+				return i.ackAttempts
+			}
+			return raw
+		}
+		dials, tokens = forgive(dials), forgive(tokens)
 	}
 	nd := 0
 	for _, r := range i.b.LogFrom(0) {
@@ -812,8 +829,12 @@ func (i *impl) exec(h *lp.H, op string) string {
 			break
 		}
 		rc0 := atomic.LoadInt32(&i.reconn)
-		i.releaseAttempt(w[1])
-		if w[1] == "fail" {
+		if w[1] == "cut" { // the dial succeeds, the link drops during the connect handshake: a failed attempt like any other
+			i.releaseAttempt("deadlink")
+		} else {
+			i.releaseAttempt(w[1])
+		}
+		if w[1] == "fail" || w[1] == "cut" {
 			time.Sleep(4 * time.Millisecond)
 			break
 		}
@@ -991,6 +1012,16 @@ func (i *impl) exec(h *lp.H, op string) string {
 			break
 		}
 		i.incAtClose = i.curInc()
+		// an attempt the library started before this Close because the back-off elapsed while the harness was busy (no `backoff`
+		// event yet) is not an attempt after Close: only what is dialled from here on counts on top of the acknowledged ones
+		i.b.Lock()
+		if early := i.b.Dials - i.ackAttempts; early > 0 {
+			i.earlyAtClose = early
+		}
+		i.b.Unlock()
+		if t := int(atomic.LoadInt32(&i.tokens)) - i.ackAttempts; t > 0 {
+			i.earlyTokAtClose = t
+		}
 		// calls that are blocked when the connection is closed must come back with the documented errors
 		type blocked struct {
 			what string
@@ -1492,7 +1523,7 @@ func main() {
 				attempting = true
 				sig += "b"
 			case status == "r" && attempting && r < 22 && fails < 2:
-				do("dial fail")
+				do([]string{"dial fail", "dial cut"}[rng.Intn(2)])
 				fails++
 				attempting = false
 				sig += "f"
